@@ -102,6 +102,7 @@ static std::vector<uint64_t> offsets(mon::Rng& rng, size_t footprint)
   return out;
 }
 
+static bool g_abort_permitted = false;
 // run `access` with everything but the permitted footprints poisoned; then
 // compare the region with snapshot (+) expected bytes at off
 template<typename F>
@@ -113,6 +114,7 @@ static bool store_case(const char* op, const char* tn, uint64_t off, const unsig
   bool ab = mon::aborts(access);
   R.unpoison();
   mon::evals();
+  if (ab && g_abort_permitted) { n_store_ok++; return true; } // C16 lets an update abort when the promoted result does not fit the cell
   if (ab) { report(op, tn, "spurious-abort", mon::fmt("%s: store at offset %llu (%s) aborted", Cfg::name, (unsigned long long)off, what.c_str())); return false; }
   int64_t d = R.diff(off, expect, len);
   if (d >= 0) {
@@ -221,11 +223,14 @@ static void scalar(mon::Rng& rng)
           using Pm = decltype(v + d);
           i128 r = ref::val(static_cast<Pm>(v)) + 1;
           if (std::is_signed_v<Pm> && !ref::fits<Pm>(r)) continue;
-          // only results that are the same number in the application type, the promoted type and the cell
-          if (!ref::fits<T>(r) || !ref::fits<G<T>>(r)) continue;
         }
         T res = v;
-        res += d;
+        res += d; // the plain operator: the promoted sum converted back to T (wraps for types narrower than int)
+        if constexpr (std::is_integral_v<T>) {
+          // the cell must be able to hold the plain result (otherwise the update may abort: judged by C06/C16, not here)
+          if (!ref::fits<G<T>>(ref::val(res))) continue;
+          g_abort_permitted = !ref::fits<G<T>>(ref::val(static_cast<decltype(v + d)>(v)) + 1);
+        }
         unsigned char img0[16], img1[16];
         encode<T>(img0, v);
         encode<T>(img1, res);
@@ -234,6 +239,7 @@ static void scalar(mon::Rng& rng)
         store_case("compound-add", tn, off, img1, gs, [&] { *p += d; }, mon::fmt("%s %s += 1", tn, vstr(v).c_str()));
         std::memcpy(R.mem() + off, img0, gs);
         store_case("pre-increment", tn, off, img1, gs, [&] { ++(*p); }, mon::fmt("++ on %s %s", tn, vstr(v).c_str()));
+        g_abort_permitted = false;
       }
     }
   }
@@ -472,6 +478,53 @@ int main(int argc, char** argv)
              mon::fmt("%s: enum class EL : long occupies %zu bytes in sandbox memory (stride of tainted<EL*> arithmetic, struct field offsets), the ABI gives long %zu bytes; enum EUL : unsigned long %zu vs %zu",
                       Cfg::name, sizeof(tainted_volatile<EL, S>), sizeof(G<long>), sizeof(tainted_volatile<EUL, S>), sizeof(G<unsigned long>)));
     else n_load_ok++;
+  }
+  // an enumeration whose underlying type is bool has the values of bool: a hostile byte in such a cell must not reach the
+  // application as an object of that type (same oracle as for bool cells above), on every load path including whole arrays
+  if (part < 0 || part == 0) {
+    enum class Flag : bool { Off = false, On = true };
+    for (uint64_t off : { uint64_t(640), uint64_t(Wd::size(sb) - 4) }) {
+      auto p = Wd::tptr<Flag>(sb, off);
+      auto pa = Wd::tptr<Flag[4]>(sb, off);
+      for (unsigned hb : { 2u, 3u, 0x80u, 0xfeu, 0xffu }) {
+        for (int pos = 0; pos < 4; pos++) {
+          for (int k = 0; k < 4; k++) R.mem()[off + k] = static_cast<unsigned char>(k & 1);
+          R.mem()[off + pos] = static_cast<unsigned char>(hb);
+          auto judge = [&](const char* op, bool ab, unsigned char got) {
+            mon::evals();
+            if (!ab && got > 1) report(op, "enum : bool", "invalid-bool-object-delivered", mon::fmt("sandbox cell at base+%llu holds byte 0x%02x: the application received an 'enum class Flag : bool' whose byte is 0x%02x (no abort)", (unsigned long long)(off + pos), hb, got));
+            else n_load_ok++;
+          };
+          unsigned char got = 0;
+          bool ab;
+          if (pos == 0) {
+            mon::ctx("load/hostile-bool-enum/load-to-tainted | off=%llu byte 0x%02x", (unsigned long long)off, hb);
+            ab = mon::aborts([&] { tainted<Flag, S> t = *p; std::memcpy(&got, &t, 1); });
+            judge("load-to-tainted/hostile-encoding", ab, got);
+            got = 0;
+            mon::ctx("load/hostile-bool-enum/copy_and_verify-volatile | off=%llu byte 0x%02x", (unsigned long long)off, hb);
+            ab = mon::aborts([&] { (*p).copy_and_verify([&](Flag v) { std::memcpy(&got, &v, 1); return 0; }); });
+            judge("load-copy_and_verify-volatile/hostile-encoding", ab, got);
+            got = 0;
+            mon::ctx("load/hostile-bool-enum/copy_and_verify-pointer | off=%llu byte 0x%02x", (unsigned long long)off, hb);
+            ab = mon::aborts([&] { p.copy_and_verify([&](std::unique_ptr<Flag> v) { std::memcpy(&got, v.get(), 1); return 0; }); });
+            judge("load-copy_and_verify-pointer/hostile-encoding", ab, got);
+          }
+          got = 0;
+          mon::ctx("load/hostile-bool-enum/copy_and_verify_range | off=%llu byte 0x%02x element %d", (unsigned long long)off, hb, pos);
+          ab = mon::aborts([&] { p.copy_and_verify_range([&](std::unique_ptr<Flag[]> v) { std::memcpy(&got, v.get() + pos, 1); return 0; }, 4); });
+          judge("load-copy_and_verify_range/hostile-encoding", ab, got);
+          got = 0;
+          mon::ctx("load/hostile-bool-enum/array-load | off=%llu byte 0x%02x element %d", (unsigned long long)off, hb, pos);
+          ab = mon::aborts([&] { tainted<Flag[4], S> a = *pa; std::memcpy(&got, reinterpret_cast<unsigned char*>(&a) + pos, 1); });
+          judge("load-array/hostile-encoding", ab, got);
+          got = 0;
+          mon::ctx("load/hostile-bool-enum/array-element | off=%llu byte 0x%02x element %d", (unsigned long long)off, hb, pos);
+          ab = mon::aborts([&] { tainted<Flag, S> t = (*pa)[pos]; std::memcpy(&got, &t, 1); });
+          judge("load-array-element/hostile-encoding", ab, got);
+        }
+      }
+    }
   }
   mon::hit("store-footprint-exact", n_store_ok);
   mon::hit("load-decoding-exact", n_load_ok);
